@@ -29,4 +29,28 @@ def rx2 : String → Int
   | "US915" | "AU915" => 8
   | _ => 2
 
+/-- RP002 "maximum payload size" tables: the maximum MACPayload size M (no repeater, no dwell-time
+limit) of the LoRa data rate with spreading factor `sf` and bandwidth `bw` (Hz) in a region, written
+from the regional-parameters tables and not from the code's `Datarate` constants
+(EU868 = EU433 = IN865: SF12..10 → 59, SF9 → 123, SF8/SF7 → 250; AS923 (RP002-1.0.3,
+dwell time off): SF12/11 → 59, SF10/9 → 123; US915: 19 / 61 / 133 / 250 at 125 kHz;
+AU915: as EU868 at 125 kHz; 500 kHz: SF12 → 61, SF11 → 137, SF10..7 → 250). -/
+def maxM (region : String) (sf bw : Int) : Option Int :=
+  match region with
+  | "US915" =>
+    if bw = 125000 then (if sf = 10 then some 19 else if sf = 9 then some 61 else if sf = 8 then some 133 else if sf = 7 then some 250 else none)
+    else if bw = 500000 then (if sf = 12 then some 61 else if sf = 11 then some 137 else if 7 ≤ sf ∧ sf ≤ 10 then some 250 else none)
+    else none
+  | "AU915" =>
+    if bw = 125000 then (if 10 ≤ sf ∧ sf ≤ 12 then some 59 else if sf = 9 then some 123 else if sf = 7 ∨ sf = 8 then some 250 else none)
+    else if bw = 500000 then (if sf = 12 then some 61 else if sf = 11 then some 137 else if 7 ≤ sf ∧ sf ≤ 10 then some 250 else none)
+    else none
+  | "AS923" =>
+    if bw = 125000 then (if sf = 11 ∨ sf = 12 then some 59 else if sf = 9 ∨ sf = 10 then some 123 else if sf = 7 ∨ sf = 8 then some 250 else none)
+    else if bw = 250000 ∧ sf = 7 then some 250 else none
+  | "EU868" | "EU433" | "IN865" =>
+    if bw = 125000 then (if 10 ≤ sf ∧ sf ≤ 12 then some 59 else if sf = 9 then some 123 else if sf = 7 ∨ sf = 8 then some 250 else none)
+    else if bw = 250000 ∧ sf = 7 ∧ region ≠ "IN865" then some 250 else none
+  | _ => none
+
 end Spec.Regional
